@@ -18,6 +18,7 @@ Env   == \/ \E k \in Keys : RemoveKey(k) \/ KeyExpiry(k)
 
 SimNext == \/ \E s \in 1..WP : Proto /\ w' = s
            \/ \E s \in 1..WD : Deliver /\ w' = s
+           \/ \E s \in 1..2 : PosCheck /\ w' = s
            \/ \E s \in 1..WU, k \in Keys : Publish(k) /\ w' = s
            \/ Env /\ w' = 0
 
